@@ -15,12 +15,21 @@ open MosVerif.Retry
 
 /-! ### the loops as written are the common loop -/
 
-theorem exchange_eq_loop (k : Kind) (hk : k ≠ .doh) (o : Oracle) : exchange k o = loop k.lim o 0 := by
+/-- `eff k o` = the attempts as they really happen: the oracle itself, except that the reuse loop's
+    last allowed attempt (retry 6) dials without consulting the pool -/
+theorem exchange_eq_loop (k : Kind) (hk : k ≠ .doh) (o : Oracle) :
+    exchange k o = loop k.lim (eff k o) 0 := by
   cases k
   · exact pipelineLoop_eq o 0
   · exact reuseLoop_eq o 0
   · exact quicLoop_eq o 0
   · exact absurd rfl hk
+
+theorem eff_doh (o : Oracle) : eff .doh o = o := rfl
+
+/-- within the retry budget minus one the pool IS consulted: the attempt is the oracle's -/
+theorem eff_early (k : Kind) (o : Oracle) (i : Nat) (h : i ≤ 5) : eff k o i = o i := by
+  cases k <;> simp [eff, reuseEff, h]
 
 /-! ### ★ bounded, total -/
 
@@ -48,16 +57,17 @@ theorem attempts_pos (k : Kind) (o : Oracle) : 0 < (exchange k o).n := by
   · rw [exchange_eq_loop k hk]; exact loop_n_gt _ _ _
 
 /-- the bounds are attained: a pool that keeps handing out stale connections -/
-example : (exchange .pipeline (fun _ => ⟨.pooled, none, false⟩)).n = 6 := by simp [exchange, pipelineLoop]
-example : (exchange .reuse (fun _ => ⟨.pooled, none, false⟩)).n = 7 := by simp [exchange, reuseLoop]
-example : (exchange .quic (fun _ => ⟨.pooled, none, false⟩)).n = 6 := by simp [exchange, quicLoop]
+example : (exchange .pipeline (fun _ => ⟨.pooled, none, false, none, false⟩)).n = 6 := by simp [exchange, pipelineLoop]
+example : (exchange .reuse (fun _ => ⟨.pooled, none, false, none, false⟩)).n = 7 := by
+  simp [exchange, reuseLoop, forcedDial]
+example : (exchange .quic (fun _ => ⟨.pooled, none, false, none, false⟩)).n = 6 := by simp [exchange, quicLoop]
 
 /-! ### ★ what is retried -/
 
 /-- every attempt but the last failed on a POOLED connection while the context was live and
     the retry budget was not exhausted: nothing else is ever retried -/
 theorem only_stale_is_retried (k : Kind) (o : Oracle) (i : Nat) (hi : i + 1 < (exchange k o).n) :
-    (o i).get = .pooled ∧ (o i).res = none ∧ (o i).ctxDone = false ∧ i < k.lim := by
+    (eff k o i).get = .pooled ∧ (eff k o i).res = none ∧ (eff k o i).ctxDone = false ∧ i < k.lim := by
   by_cases hk : k = .doh
   · subst hk; simp [exchange, attempts_doh] at hi
   · rw [exchange_eq_loop k hk] at hi
@@ -68,12 +78,13 @@ theorem only_stale_is_retried (k : Kind) (o : Oracle) (i : Nat) (hi : i + 1 < (e
 /-- ★ a failure on a freshly dialled connection is returned — that attempt is the last one and
     the exchange reports an error -/
 theorem fresh_failure_returned (k : Kind) (o : Oracle) (i : Nat) (hi : i < (exchange k o).n)
-    (hf : (o i).get = .fresh) (hr : (o i).res = none) :
+    (hf : (eff k o i).get = .fresh) (hr : (eff k o i).res = none) :
     (exchange k o).res = none ∧ (exchange k o).n = i + 1 := by
   by_cases hk : k = .doh
   · subst hk
     have : i = 0 := by simp [exchange, attempts_doh] at hi; exact hi
     subst this
+    simp only [eff] at hf hr
     simp only [exchange, dohOnce]
     split <;> (try split) <;> simp_all
   · have hlast : (exchange k o).n = i + 1 := by
@@ -88,11 +99,12 @@ theorem fresh_failure_returned (k : Kind) (o : Oracle) (i : Nat) (hi : i < (exch
 
 /-- likewise a failed dial (or a closed pool) ends the exchange with an error -/
 theorem get_failure_returned (k : Kind) (o : Oracle) (i : Nat) (hi : i < (exchange k o).n)
-    (hf : (o i).get.isErr = true) : (exchange k o).res = none ∧ (exchange k o).n = i + 1 := by
+    (hf : (eff k o i).get.isErr = true) : (exchange k o).res = none ∧ (exchange k o).n = i + 1 := by
   by_cases hk : k = .doh
   · subst hk
     have : i = 0 := by simp [exchange, attempts_doh] at hi; exact hi
     subst this
+    simp only [eff] at hf
     simp [exchange, dohOnce, hf]
   · have hlast : (exchange k o).n = i + 1 := by
       by_cases h : i + 1 < (exchange k o).n
@@ -106,7 +118,7 @@ theorem get_failure_returned (k : Kind) (o : Oracle) (i : Nat) (hi : i < (exchan
 
 /-- ★ once the context is done no further attempt starts -/
 theorem ctx_done_stops (k : Kind) (o : Oracle) (i : Nat) (hi : i < (exchange k o).n)
-    (hd : (o i).ctxDone = true) : (exchange k o).n = i + 1 := by
+    (hd : (eff k o i).ctxDone = true) : (exchange k o).n = i + 1 := by
   by_cases h : i + 1 < (exchange k o).n
   · have := (only_stale_is_retried k o i h).2.2.1
     rw [hd] at this; cases this
@@ -114,35 +126,82 @@ theorem ctx_done_stops (k : Kind) (o : Oracle) (i : Nat) (hi : i < (exchange k o
 
 /-- ★ the first `m ≤ lim` attempts fail on pooled connections (context live) and the next
     attempt — on a fresh or on a pooled connection — gets a reply ⇒ the exchange returns
-    that reply, after exactly `m + 1` attempts -/
+    that reply, after exactly `m + 1` attempts. (`eff k o i = o i` for `i ≤ 5`, see `eff_early`;
+    the reuse loop's attempt 6 is a dial.) -/
 theorem stale_then_healthy_succeeds (k : Kind) (hk : k ≠ .doh) (o : Oracle) (m x : Nat)
     (hm : m ≤ k.lim)
-    (hs : ∀ i, i < m → (o i).get = .pooled ∧ (o i).res = none ∧ (o i).ctxDone = false)
-    (hg : (o m).get = .pooled ∨ (o m).get = .fresh) (hx : (o m).res = some x) :
+    (hs : ∀ i, i < m → (eff k o i).get = .pooled ∧ (eff k o i).res = none ∧ (eff k o i).ctxDone = false)
+    (hg : (eff k o m).get = .pooled ∨ (eff k o m).get = .fresh) (hx : (eff k o m).res = some x) :
     exchange k o = ⟨some x, m + 1⟩ := by
   rw [exchange_eq_loop k hk]
-  have h1 := loop_skip_stale k.lim o 0 m (by omega)
+  have h1 := loop_skip_stale k.lim (eff k o) 0 m (by omega)
     (fun i _ hi => (isStale_iff _).2 (hs i (by omega)))
   rw [h1, Nat.zero_add]
   apply loop_healthy
   · rcases hg with h | h <;> simp [h, Get.isErr]
   · exact hx
 
+/-- the same in terms of the oracle itself when at most 5 connections were stale -/
+theorem stale_then_healthy_succeeds_pool (k : Kind) (hk : k ≠ .doh) (o : Oracle) (m x : Nat)
+    (hm : m ≤ 5)
+    (hs : ∀ i, i < m → (o i).get = .pooled ∧ (o i).res = none ∧ (o i).ctxDone = false)
+    (hg : (o m).get = .pooled ∨ (o m).get = .fresh) (hx : (o m).res = some x) :
+    exchange k o = ⟨some x, m + 1⟩ := by
+  apply stale_then_healthy_succeeds k hk o m x
+  · cases k <;> simp [Kind.lim] at hk ⊢ <;> omega
+  · intro i hi; rw [eff_early k o i (by omega)]; exact hs i hi
+  · rw [eff_early k o m hm]; exact hg
+  · rw [eff_early k o m hm]; exact hx
+
+/-- ★ connection-reuse transports: HOWEVER MANY stale connections the pool holds — every attempt
+    on a pooled connection may fail — if the context stays live and a dial reaches a healthy
+    server, the exchange succeeds (the 7th attempt dials instead of asking the pool again) -/
+theorem stale_pool_any_size_succeeds (o : Oracle)
+    (hp : ∀ i, isHealthy (o i) = true ∨ isStale (o i) = true)
+    (hd : ∀ i, ∃ x, (o i).forced = some (some x)) :
+    (exchange .reuse o).res.isSome = true := by
+  rw [exchange_eq_loop .reuse (by decide)]
+  have hn1 := loop_n_gt Kind.reuse.lim (eff .reuse o) 0
+  have hn2 := loop_n_le Kind.reuse.lim (eff .reuse o) 0 (Nat.zero_le _)
+  obtain ⟨j, hj⟩ : ∃ j, (loop Kind.reuse.lim (eff .reuse o) 0).n = j + 1 :=
+    ⟨(loop Kind.reuse.lim (eff .reuse o) 0).n - 1, by omega⟩
+  rw [loop_final, hj]
+  simp only [Nat.add_sub_cancel]
+  by_cases h6 : j < 6
+  · have hns := loop_final_not_stale Kind.reuse.lim (eff .reuse o) 0 j (Nat.zero_le _) h6 hj
+    have he : eff .reuse o j = o j := eff_early .reuse o j (by omega)
+    rw [he] at hns ⊢
+    rcases hp j with h | h
+    · simp only [isHealthy, Bool.and_eq_true, Bool.not_eq_true'] at h
+      simp [h.1, h.2]
+    · rw [h] at hns; cases hns
+  · have h7 : j = 6 := by simp only [Kind.lim] at hn2 hj; omega
+    subst h7
+    obtain ⟨x, hx⟩ := hd 6
+    simp [eff, reuseEff, forcedDial, hx, Get.isErr]
+
+/-- … and the pipelined / QUIC loops do not have that escape: 6 stale connections exhaust them -/
+example : exchange .pipeline (fun _ => ⟨.pooled, none, false, some (some 7), false⟩) = ⟨none, 6⟩ := by
+  simp [exchange, pipelineLoop]
+
 /-- non-vacuity: 5 stale pooled connections, then a fresh one that answers (pipeline);
     6 for the reuse transport; and one more stale connection exhausts the budget -/
-example : exchange .pipeline (oracleOf ((List.replicate 5 ⟨.pooled, none, false⟩) ++ [⟨.fresh, some 7, false⟩]))
+example : exchange .pipeline (oracleOf ((List.replicate 5 ⟨.pooled, none, false, none, false⟩) ++ [⟨.fresh, some 7, false, none, false⟩]))
     = ⟨some 7, 6⟩ := by simp [exchange, pipelineLoop, oracleOf, List.replicate]
-example : exchange .reuse (oracleOf ((List.replicate 6 ⟨.pooled, none, false⟩) ++ [⟨.pooled, some 7, false⟩]))
-    = ⟨some 7, 7⟩ := by simp [exchange, reuseLoop, oracleOf, List.replicate]
-example : exchange .pipeline (oracleOf ((List.replicate 6 ⟨.pooled, none, false⟩) ++ [⟨.fresh, some 7, false⟩]))
+example : exchange .reuse (oracleOf ((List.replicate 5 ⟨.pooled, none, false, none, false⟩) ++ [⟨.pooled, some 7, false, none, false⟩]))
+    = ⟨some 7, 6⟩ := by simp [exchange, reuseLoop, oracleOf, List.replicate]
+/-- the reuse loop's 7th attempt dials whatever the pool holds -/
+example : exchange .reuse (fun _ => ⟨.pooled, none, false, some (some 7), false⟩) = ⟨some 7, 7⟩ := by
+  simp [exchange, reuseLoop, forcedDial]
+example : exchange .pipeline (oracleOf ((List.replicate 6 ⟨.pooled, none, false, none, false⟩) ++ [⟨.fresh, some 7, false, none, false⟩]))
     = ⟨none, 6⟩ := by simp [exchange, pipelineLoop, oracleOf, List.replicate]
-example : exchange .pipeline (oracleOf [⟨.fresh, none, false⟩, ⟨.fresh, some 7, false⟩]) = ⟨none, 1⟩ := by
+example : exchange .pipeline (oracleOf [⟨.fresh, none, false, none, false⟩, ⟨.fresh, some 7, false, none, false⟩]) = ⟨none, 1⟩ := by
   simp [exchange, pipelineLoop, oracleOf]
-example : exchange .reuse (oracleOf [⟨.pooled, none, true⟩, ⟨.fresh, some 7, false⟩]) = ⟨none, 1⟩ := by
+example : exchange .reuse (oracleOf [⟨.pooled, none, true, none, false⟩, ⟨.fresh, some 7, false, none, false⟩]) = ⟨none, 1⟩ := by
   simp [exchange, reuseLoop, oracleOf]
 
 /-- at most one dial per exchange: only the last attempt can be on a fresh connection -/
-theorem at_most_one_dial (k : Kind) (o : Oracle) : dialsUpTo o (exchange k o).n ≤ 1 := by
+theorem at_most_one_dial (k : Kind) (o : Oracle) : dialsUpTo (eff k o) (exchange k o).n ≤ 1 := by
   by_cases hk : k = .doh
   · subst hk
     rw [show (exchange .doh o).n = 1 from attempts_doh o]
@@ -150,7 +209,7 @@ theorem at_most_one_dial (k : Kind) (o : Oracle) : dialsUpTo o (exchange k o).n 
   · rw [exchange_eq_loop k hk]; exact loop_dials_le_one _ _
 
 /-- at most `lim + 1` exchanges are written to connections -/
-theorem exchanges_bounded (k : Kind) (o : Oracle) : exchUpTo o (exchange k o).n ≤ k.lim + 1 :=
+theorem exchanges_bounded (k : Kind) (o : Oracle) : exchUpTo (eff k o) (exchange k o).n ≤ k.lim + 1 :=
   Nat.le_trans (exchUpTo_le _ _) (attempts_bounded k o)
 
 /-! ### ★ a dead pipelined connection wakes every waiter -/
@@ -308,12 +367,36 @@ theorem takeWhile_stale (l : List Attempt) (i : Nat) (h : i < (l.takeWhile isSta
         simpa [List.getD] using this
     · simp [ha] at h
 
-theorem all_live_getD (l : List Attempt) (h : l.all (fun a => !a.ctxDone) = true) (i : Nat) :
-    (l.getD i defaultAttempt).ctxDone = false := by
+theorem all_live_getD (l : List Attempt) (h : l.all (fun a => !a.ctxDone && !a.forcedDone) = true) (i : Nat) :
+    (l.getD i defaultAttempt).ctxDone = false ∧ (l.getD i defaultAttempt).forcedDone = false := by
   by_cases hi : i < l.length
   · have := List.all_eq_true.1 h (l[i]) (List.getElem_mem hi)
     simpa [List.getD, hi] using this
   · simp [List.getD, List.getElem?_eq_none (Nat.le_of_not_lt hi), defaultAttempt]
+
+theorem forcedDial_ctxDone (a : Attempt) : (forcedDial a).ctxDone = a.forcedDone := by
+  unfold forcedDial; split <;> rfl
+
+theorem eff_ctxDone (k : Kind) (o : Oracle) (i : Nat) (h1 : (o i).ctxDone = false) (h2 : (o i).forcedDone = false) :
+    (eff k o i).ctxDone = false := by
+  cases k <;> simp only [eff, reuseEff] <;> (try split) <;> simp [forcedDial_ctxDone, h1, h2]
+
+theorem stalePool_getD (l : List Attempt) (h : stalePoolHealthyServer l = true) (i : Nat) :
+    (isHealthy (l.getD i defaultAttempt) = true ∨ isStale (l.getD i defaultAttempt) = true) ∧
+      ∃ x, (l.getD i defaultAttempt).forced = some (some x) := by
+  by_cases hi : i < l.length
+  · have := List.all_eq_true.1 h (l[i]) (List.getElem_mem hi)
+    simp only [Bool.and_eq_true, Bool.or_eq_true] at this
+    refine ⟨by simpa [List.getD, hi] using this.1, ?_⟩
+    have h2 := this.2
+    cases hf : l[i].forced with
+    | none => simp [hf] at h2
+    | some r =>
+      cases r with
+      | none => simp [hf] at h2
+      | some x => exact ⟨x, by simp [List.getD, hi, hf]⟩
+  · refine ⟨Or.inl ?_, 1, ?_⟩ <;>
+      simp [List.getD, List.getElem?_eq_none (Nat.le_of_not_lt hi), defaultAttempt, isHealthy, Get.isErr, healthyDial]
 
 /-- ★ for every loop, every fault script and every choice of observables, the outcome the
     model predicts satisfies the executable specification written from the property text
@@ -322,11 +405,12 @@ theorem model_meets_spec (k : Kind) (l : List Attempt) (obs : String) :
     spec k l (predict k (oracleOf l) obs) = true := by
   have hA : (predict k (oracleOf l) obs).t ≠ "late" := by
     simp only [predict]; split <;> decide
-  have hB : k ≠ .doh → staleThenHealthy k.lim l = true → (predict k (oracleOf l) obs).ok = true := by
+  have hB : k ≠ .doh → staleThenHealthy k.poolLim l = true → (predict k (oracleOf l) obs).ok = true := by
     intro hk hs
     simp only [staleThenHealthy, Bool.and_eq_true, decide_eq_true_eq] at hs
     obtain ⟨hm, hh⟩ := hs
     generalize hmm : (l.takeWhile isStale).length = m at hm hh
+    have hm5 : m ≤ 5 := by cases k <;> simp [Kind.poolLim] at hm hk ⊢ <;> omega
     have hst : ∀ i, i < m → (oracleOf l i).get = .pooled ∧ (oracleOf l i).res = none ∧ (oracleOf l i).ctxDone = false :=
       fun i hi => (isStale_iff _).1 (takeWhile_stale l i (by omega))
     have hh' : isHealthy (oracleOf l m) = true := hh
@@ -336,8 +420,14 @@ theorem model_meets_spec (k : Kind) (l : List Attempt) (obs : String) :
       | some x => exact ⟨x, rfl⟩
     have hg : (oracleOf l m).get = .pooled ∨ (oracleOf l m).get = .fresh := by
       cases hq : (oracleOf l m).get <;> simp [isHealthy, Get.isErr, hq] at hh' ⊢
-    have := stale_then_healthy_succeeds k hk (oracleOf l) m x hm hst hg hx
+    have := stale_then_healthy_succeeds_pool k hk (oracleOf l) m x hm5 hst hg hx
     simp [predict, this]
+  have hB2 : k = .reuse → stalePoolHealthyServer l = true → (predict k (oracleOf l) obs).ok = true := by
+    intro hk hs
+    subst hk
+    have := stale_pool_any_size_succeeds (oracleOf l)
+      (fun i => (stalePool_getD l hs i).1) (fun i => (stalePool_getD l hs i).2)
+    simpa [predict] using this
   have hC : ∀ a, (predict k (oracleOf l) obs).att = some a → a ≤ k.lim + 1 := by
     intro a ha
     simp only [predict] at ha
@@ -350,20 +440,26 @@ theorem model_meets_spec (k : Kind) (l : List Attempt) (obs : String) :
     split at hd
     · cases hd; exact at_most_one_dial k _
     · cases hd
-  have hE : l.all (fun a => !a.ctxDone) = true → (predict k (oracleOf l) obs).t = "prompt" := by
+  have hE : l.all (fun a => !a.ctxDone && !a.forcedDone) = true → (predict k (oracleOf l) obs).t = "prompt" := by
     intro h
-    have : (oracleOf l ((exchange k (oracleOf l)).n - 1)).ctxDone = false :=
-      all_live_getD l h ((exchange k (oracleOf l)).n - 1)
+    have h1 := all_live_getD l h ((exchange k (oracleOf l)).n - 1)
+    have : (eff k (oracleOf l) ((exchange k (oracleOf l)).n - 1)).ctxDone = false :=
+      eff_ctxDone k (oracleOf l) _ h1.1 h1.2
     simp only [predict, this]
     simp
   have hF : (predict k (oracleOf l) obs).woke = true ∧ (predict k (oracleOf l) obs).leak = 0 := ⟨rfl, rfl⟩
   simp only [spec, Bool.and_eq_true]
-  refine ⟨⟨⟨⟨⟨⟨?_, ?_⟩, ?_⟩, ?_⟩, ?_⟩, hF.1⟩, by simp [hF.2]⟩
+  refine ⟨⟨⟨⟨⟨⟨⟨?_, ?_⟩, ?_⟩, ?_⟩, ?_⟩, ?_⟩, hF.1⟩, by simp [hF.2]⟩
   · simpa using hA
   · split
     · rename_i h
       simp only [bne_iff_ne, ne_eq] at h
       exact hB h.1 h.2
+    · rfl
+  · split
+    · rename_i h
+      simp only [beq_iff_eq] at h
+      exact hB2 h.1 h.2
     · rfl
   · cases hq : (predict k (oracleOf l) obs).att with
     | none => rfl
@@ -378,14 +474,16 @@ theorem model_meets_spec (k : Kind) (l : List Attempt) (obs : String) :
 /-- the specification is not vacuous: it rejects a late return, a stale connection that was
     not survived, a second dial, an unbounded number of attempts, waiting out the deadline
     after a connection died, sleeping waiters and a leaked connection -/
-example : spec .pipeline [⟨.fresh, none, true⟩] ⟨false, some 1, some 1, "late", true, 0⟩ = false := by decide
-example : spec .reuse [⟨.pooled, none, false⟩, ⟨.fresh, some 1, false⟩] ⟨false, some 1, some 0, "prompt", true, 0⟩ = false := by decide
-example : spec .reuse [⟨.pooled, none, false⟩, ⟨.fresh, some 1, false⟩] ⟨true, some 2, some 1, "prompt", true, 0⟩ = true := by decide
-example : spec .pipeline [⟨.fresh, none, false⟩] ⟨false, some 2, some 2, "prompt", true, 0⟩ = false := by decide
-example : spec .pipeline [⟨.pooled, none, false⟩] ⟨false, some 8, some 0, "prompt", true, 0⟩ = false := by decide
-example : spec .pipeline [⟨.fresh, none, false⟩] ⟨false, some 1, some 1, "intime", true, 0⟩ = false := by decide
-example : spec .pipeline [⟨.fresh, none, false⟩] ⟨false, some 1, some 1, "prompt", false, 0⟩ = false := by decide
-example : spec .pipeline [⟨.fresh, none, false⟩] ⟨false, some 1, some 1, "prompt", true, 1⟩ = false := by decide
+example : spec .pipeline [⟨.fresh, none, true, none, false⟩] ⟨false, some 1, some 1, "late", true, 0⟩ = false := by decide
+example : spec .reuse (List.replicate 9 ⟨.pooled, none, false, healthyDial, false⟩) ⟨false, some 7, some 0, "prompt", true, 0⟩ = false := by decide
+example : spec .reuse (List.replicate 9 ⟨.pooled, none, false, healthyDial, false⟩) ⟨true, some 7, some 1, "prompt", true, 0⟩ = true := by decide
+example : spec .reuse [⟨.pooled, none, false, none, false⟩, ⟨.fresh, some 1, false, healthyDial, false⟩] ⟨false, some 1, some 0, "prompt", true, 0⟩ = false := by decide
+example : spec .reuse [⟨.pooled, none, false, none, false⟩, ⟨.fresh, some 1, false, healthyDial, false⟩] ⟨true, some 2, some 1, "prompt", true, 0⟩ = true := by decide
+example : spec .pipeline [⟨.fresh, none, false, none, false⟩] ⟨false, some 2, some 2, "prompt", true, 0⟩ = false := by decide
+example : spec .pipeline [⟨.pooled, none, false, none, false⟩] ⟨false, some 8, some 0, "prompt", true, 0⟩ = false := by decide
+example : spec .pipeline [⟨.fresh, none, false, none, false⟩] ⟨false, some 1, some 1, "intime", true, 0⟩ = false := by decide
+example : spec .pipeline [⟨.fresh, none, false, none, false⟩] ⟨false, some 1, some 1, "prompt", false, 0⟩ = false := by decide
+example : spec .pipeline [⟨.fresh, none, false, none, false⟩] ⟨false, some 1, some 1, "prompt", true, 1⟩ = false := by decide
 
 /-! ### tie: pinned source facts -/
 
@@ -406,14 +504,22 @@ theorem pins :
     Facts.c14_pipeExchange = "resp, err := conn.exchange(ctx, m)" ∧ Facts.c14_pipeRelease = "t.releaseConn(conn)" ∧
     Facts.c14_pipeErrReturns = 2 ∧ Facts.c14_pipeOkReturn = "return resp, nil" ∧
     -- reuse loop body
-    Facts.c14_reuseGetIdle = "c, err := t.getIdleConn()" ∧ Facts.c14_reuseNilCond = "c == nil" ∧
+    Facts.c14_reusePoolCond = "retry <= 5" ∧ Facts.c14_reusePoolLimit = Kind.reuse.poolLim ∧
+    Facts.c14_reuseConnDecl = "var c *reusableConn" ∧
+    Facts.c14_reuseGetIdle = "c, err = t.getIdleConn()" ∧ Facts.c14_reuseGetIdleCalls = 1 ∧
+    Facts.c14_reuseDialCalls = 1 ∧ Facts.c14_reuseNilCond = "c == nil" ∧
     Facts.c14_reuseNewConnSet = "isNewConn = true" ∧ Facts.c14_reuseNewConnSets = 1 ∧
     Facts.c14_reuseDial = "c, err = t.asyncDial(ctx)" ∧
     Facts.c14_reuseExchange = "resp, err := t.exchangeConnCtx(ctx, payload, c)" ∧
     Facts.c14_reuseErrReturns = 3 ∧ Facts.c14_reuseOkReturn = "return resp, nil" ∧
     -- quic loop body
     Facts.c14_quicGet = "c, newConn, err := t.getConn(ctx)" ∧ Facts.c14_quicGetErrRet = "return nil, err" ∧
-    Facts.c14_quicExchange = "b, err := t.exchangeConn(ctx, payload, c)" ∧ Facts.c14_quicReturn = "return b, err" ∧
+    Facts.c14_quicExchange = "b, err := t.exchangeConn(ctx, payload, c)" ∧ Facts.c14_quicReturn = "return b, err" := by
+  decide
+
+set_option maxRecDepth 8000 in
+/-- tie: the connection-scoped cancel and the deadlines / time-outs the reading of the code depends on -/
+theorem pins_waits :
     -- connection-scoped cancel
     Facts.c14_closeBody = "{ if err == nil { err = errPipelineConnClosed } c.m.Lock() if c.closed { c.m.Unlock() return } c.closed = true c.m.Unlock() c.cancelCause(err) go c.c.Close() debugLogTransportConnClosed(c.c, c.t.logger, err) }" ∧
     Facts.c14_closeCancel = "c.cancelCause(err)" ∧ Facts.c14_closeAsync = "go c.c.Close()" ∧
